@@ -49,6 +49,15 @@ class MarkDirective:
         r = await next_resolver(parent, args, ctx, info)
         return f"{self.tag}[{r}]" if isinstance(r, str) else r
 
+class SeenDirective:
+    """a STATEFUL directive implementation registered as a CLASS (the library instantiates it): every schema name gets its
+    own instance and therefore its own count (round 9, C17-r9-4: one memoised instance per class)"""
+    def __init__(self): self.n = 0
+    async def on_field_execution(self, directive_args, next_resolver, parent, args, ctx, info):
+        r = await next_resolver(parent, args, ctx, info)
+        self.n += 1
+        return f"{r}~{self.n}" if isinstance(r, str) else r
+
 def registrations(bundle):
     """the individual registration actions of a bundle, as thunks"""
     from tartiflette import Resolver, Scalar, TypeResolver
@@ -65,6 +74,7 @@ def registrations(bundle):
                 acts.append(lambda t=t: Scalar(t["name"], schema_name=name)(TaggedScalar(tag)))
     from tartiflette import Directive
     acts.append(lambda: Directive("mark", schema_name=name)(MarkDirective(tag)))
+    acts.append(lambda: Directive("seen", schema_name=name)(SeenDirective))
     for coord, spec in renv["resolvers"].items():
         if spec["k"] == "default": continue
         def reg(coord=coord, spec=spec):
@@ -144,13 +154,16 @@ def make_bundle(rng, idx):
             for f in t["fields"]:
                 if f["type"] == {"n": "String"} and rng.random() < 0.6:
                     f["sdl_directives"] = " @mark"; marked += 1
+                if f["name"] == "whoami": f["sdl_directives"] = f.get("sdl_directives", "") + " @seen"
                 if rng.random() < 0.25 and len(t["fields"]) > 1:
                     f["sdl_directives"] = f.get("sdl_directives", "") + (' @deprecated(reason: "old")' if rng.random() < 0.6 else " @deprecated")
     ext_target = sg.obj_names[0]
     # the same directive NAME is declared with different locations under different schema names: a document using
     # @mark on a query field is valid for a "wide" bundle and must be refused by a "narrow" one, whoever validated first
     wide = rng.random() < 0.5
-    model["sdl_extra"] = ['directive @mark(tag: String = "d") on FIELD_DEFINITION | OBJECT' + (" | FIELD" if wide else ""), f"extend type {ext_target} @mark(tag: \"ext\")"]
+    model["sdl_extra"] = ['directive @mark(tag: String = "d") on FIELD_DEFINITION | OBJECT' + (" | FIELD" if wide else ""), f"extend type {ext_target} @mark(tag: \"ext\")",
+                          "directive @seen on FIELD_DEFINITION"]
+    probes.append(("{ again: whoami }", None, None))
     for q, opn, variables in list(probes[:2]):
         probes.append((q.replace("{", '{ __typename @mark(tag: "q") ', 1), opn, variables))
     # a variable of the custom scalar type: it must be coerced by THIS schema name's implementation (identical text everywhere)
